@@ -42,6 +42,10 @@ func (e *Enc) effectFreeFn(fn *ssa.Function) bool {
 	if v, ok := effectFreeFuncs[fn.String()]; ok {
 		return v
 	}
+	// iterator constructors of package slices only build a closure over their argument
+	if s := fn.String(); strings.HasPrefix(s, "slices.Backward[") || strings.HasPrefix(s, "slices.All[") || strings.HasPrefix(s, "slices.Values[") {
+		return true
+	}
 	p := pkgPathOf(fn)
 	for _, pre := range effectFreePkgs {
 		if p == pre || strings.HasPrefix(p, pre) && (strings.HasSuffix(pre, "/") || strings.HasPrefix(p[len(pre):], "/")) {
@@ -732,7 +736,7 @@ func (e *Enc) cutsBefore(fr *Frame, b *ssa.BasicBlock, i int, ins ssa.Instructio
 		}
 		for _, c := range cs.Asserts {
 			t := e.evalBool(sc, c.E)
-			e.obligeAssume("assert@stmt", cs.Anchor+":"+clabel(c), guard, t, c.Src, ins.Pos())
+			e.obligeAssume("assert@stmt", strings.ReplaceAll(cs.Anchor, "\x00", "#")+":"+clabel(c), guard, t, c.Src, ins.Pos())
 		}
 		cs.Hits++
 		e.cutsLeft--
